@@ -78,3 +78,10 @@ Definition in_range (ps : list prog) (n : nat) : Prop :=
 Definition legacy_diteration_two_nodes : list prog :=
   [ [Rd 0; Wr 0 (fun _ => 0%Z); Rd 2; Wr 2 (fun r => (nthz r 1 + nthz r 0)%Z)];
     [Rd 1; Wr 1 (fun _ => 0%Z); Rd 2; Wr 2 (fun r => (nthz r 1 + nthz r 0)%Z)] ].
+
+(** The inner loop of push.pyx before its repair (fix 16742c7c): iterations j and j' ran under prange; each adds to its
+    own residual cell (0 and 1: distinct neighbours) but BOTH push into the one work-list, modelled as cell 2 holding
+    the queue content in base 10 ([push x] = read the queue, write [10 q + x]). *)
+Definition legacy_push_two_neighbours : list prog :=
+  [ [Rd 0; Wr 0 (fun r => (nthz r 0 + 1)%Z); Rd 2; Wr 2 (fun r => (10 * nthz r 1 + 1)%Z)];
+    [Rd 1; Wr 1 (fun r => (nthz r 0 + 1)%Z); Rd 2; Wr 2 (fun r => (10 * nthz r 1 + 2)%Z)] ].
